@@ -36,8 +36,9 @@ V = "verification.sfs_verify"
 
 # raise sites in the comparison without an exhibited failing input (block-level effect is contained since the F5 repair)
 TRIAGED_UNPROVEN = {
-    # keys are canonical in the function's local names (L1 = first local mentioned)
-    "compare_dependences:raise:len(L1) == 0": "no KECCAK dependence with the same second id in the optimized list; conservative reject",
+    # keys are canonical in the function's local names (L1 = first local mentioned) and do not name the function: a raise that an
+    # extract-helper refactoring moves into a helper is the same site
+    "raise:len(L1) == 0": "no KECCAK dependence with the same second id in the optimized list; conservative reject",
 }
 
 
@@ -203,7 +204,7 @@ def rule_d(ctx, out):
                 n += 1
                 p = getattr(st, "_parent", None)
                 cond = norm(p.test) if isinstance(p, ast.If) else "?"
-                key = f"{f.name}:raise:{canon(cond, function_locals(f.node))}"
+                key = f"raise:{canon(cond, function_locals(f.node))}"
                 if key in TRIAGED_UNPROVEN:
                     if key not in [u["site"] for u in out.unproven]:
                         out.unproven.append({"site": key, "reason": TRIAGED_UNPROVEN[key]})
